@@ -882,6 +882,30 @@ def check_batch(seed, n_jobs=None):
                 g = np.asarray(r.data.sel(**{"frequency": f, dim: keys[si], "theta": t}).values).ravel()
                 if not float(np.max(np.abs(one - g))) <= 1e-9:
                     problems.append(("batch-angle", kind, f, si, t, float(np.max(np.abs(one - g)))))
+    # the per-layer diagnostics stored with the result (ks, ka, thickness, effective permittivity) are values of the individual
+    # simulations too, and a result already returned does not change when the model runs again
+    def diag(res, sel=None):
+        out = {}
+        for k_ in ("ks", "ka", "thickness"):
+            if k_ in res.other_data:
+                v = res.other_data[k_] if sel is None else res.other_data[k_].sel(**sel)
+                v = np.asarray(v.values, dtype=float).ravel()
+                out[k_] = v[np.isfinite(v)]
+        return out
+    before = {k_: np.array(np.asarray(v.values, dtype=float)) for k_, v in r.other_data.items() if k_ in ("ks", "ka", "thickness")}
+    for f in fr[:1]:
+        for si, sp in enumerate(sps):
+            one = diag(m.run(passive(f, th), sp))
+            got = diag(r, {"frequency": f, dim: keys[si]})
+            for k_ in one:
+                if k_ in got and (one[k_].shape != got[k_].shape or not np.array_equal(one[k_], got[k_])):
+                    problems.append(("batch-diagnostics", kind, k_, f, si, got[k_].tolist()[:4], one[k_].tolist()[:4]))
+                    break
+    after = {k_: np.asarray(r.other_data[k_].values, dtype=float) for k_ in before}
+    for k_ in before:
+        if before[k_].shape != after[k_].shape or not np.array_equal(before[k_], after[k_], equal_nan=True):
+            problems.append(("result-changed-later", k_))
+            break
     r2 = m.run(sensor, cont)
     if np.asarray(r.data.values).tobytes() != np.asarray(r2.data.values).tobytes():
         problems.append(("repeat", float(np.max(np.abs(r.data.values - r2.data.values)))))
